@@ -1,57 +1,59 @@
-(* line protocol: <fn> <arg>...   args: h:<hex bytes>  n:<decimal>  ; output one line *)
+(* Generic line protocol between the harness and the extracted model.
+   request : <function> <arg> <arg> ...          (one per line, blank separated)
+   arg     : <hex digits>   bytes        |  -          empty bytes
+           | #<decimal>     integer (Z)  |  [a,b,...]  list (nestable, [] empty)
+   reply   : ok <hex of the bytes the Coq function [Entry.dispatch] returned>  |  error bad-request
+   All interpretation of requests and all rendering of results is done in Coq (Extract/Entry.v);
+   this file only converts between text and the Coq datatypes N, Z, list. *)
 module M = Model
+
 let rec pos_of_int n = if n = 1 then M.XH else if n land 1 = 0 then M.XO (pos_of_int (n lsr 1)) else M.XI (pos_of_int (n lsr 1))
 let n_of_int n = if n = 0 then M.N0 else M.Npos (pos_of_int n)
 let rec int_of_pos = function M.XH -> 1 | M.XO p -> 2 * int_of_pos p | M.XI p -> 2 * int_of_pos p + 1
 let int_of_n = function M.N0 -> 0 | M.Npos p -> int_of_pos p
-let bytes_of_hex (s : string) : M.n list =
-  let l = String.length s / 2 in
-  List.init l (fun i -> n_of_int (int_of_string ("0x" ^ String.sub s (2*i) 2)))
-let hex_of_bytes (l : M.n list) : string =
-  String.concat "" (List.map (fun b -> Printf.sprintf "%02x" (int_of_n b)) l)
-let exn_name = function
-  | M.ValueError -> "ValueError" | M.KeyError -> "KeyError" | M.IndexError -> "IndexError"
-  | M.RuntimeError -> "RuntimeError" | M.StructError -> "StructError" | M.BinasciiError -> "BinasciiError"
-  | M.UnicodeDecodeError -> "UnicodeDecodeError" | M.OverflowError -> "OverflowError"
-  | M.TypeError -> "TypeError" | M.OSError -> "OSError"
 let z_of_int n = if n = 0 then M.Z0 else if n > 0 then M.Zpos (pos_of_int n) else M.Zneg (pos_of_int (-n))
-let split c s = if s = "" || s = "-" then [] else String.split_on_char c s
-let waves_of s = List.map (fun w -> match String.split_on_char ':' w with
-  | [k; p; h] -> (bytes_of_hex k, (bytes_of_hex p, bytes_of_hex h)) | _ -> failwith "wave") (split ',' s)
-let opt_name s = if s = "-" then [] else bytes_of_hex s
-let tri s = n_of_int (match s with "-" -> 0 | "0" -> 1 | _ -> 2)
-let arg_bytes a = bytes_of_hex (String.sub a 2 (String.length a - 2))
-let res_bytes = function M.Ok b -> "ok " ^ hex_of_bytes b | M.Exc e -> "exc " ^ exn_name e
-let dispatch = function
-  | ["sign"; p] -> res_bytes (M.sign_packet_with_crc_key (arg_bytes p))
-  | ["bcast"; lm; lt; m] -> "ok " ^ hex_of_bytes (M.parse_datagram_show (lm = "1") (lt = "1") (arg_bytes m))
-  | ["calc_duration"; a; b] -> res_bytes (M.calc_duration (arg_bytes a) (arg_bytes b))
-  | ["breeze"; lg; devid; key; now; rid; onoff; waves; st; md; tg; fn; sw; up; reps] ->
-      "ok " ^ hex_of_bytes (M.entry_breeze (lg = "1") (bytes_of_hex devid) (bytes_of_hex key) (n_of_int (int_of_string now))
-        (bytes_of_hex rid) (z_of_int (int_of_string onoff)) (waves_of waves) (tri st) (opt_name md) (z_of_int (int_of_string tg))
-        (opt_name fn) (tri sw) (up = "1") (List.map bytes_of_hex (split ',' reps)))
-  | ["op"; lg; op; devid; key; now; a; b; z1; z2; days; reps] ->
-      "ok " ^ hex_of_bytes (M.entry_op (lg = "1") (n_of_int (int_of_string op)) (bytes_of_hex devid) (bytes_of_hex key)
-        (n_of_int (int_of_string now)) (opt_name a) (opt_name b) (z_of_int (int_of_string z1)) (z_of_int (int_of_string z2))
-        (List.map (fun d -> n_of_int (int_of_string d)) (split ',' days)) (List.map bytes_of_hex (split ',' reps)))
-  | ["sched"; lu; ln; zd; trans; now; msg] ->
-      let tr = List.map (fun x -> match String.split_on_char ':' x with [a; b] -> (z_of_int (int_of_string a), z_of_int (int_of_string b)) | _ -> failwith "trans") (split ',' trans) in
-      "ok " ^ hex_of_bytes (M.entry_schedules (lu = "1") (ln = "1") (z_of_int (int_of_string zd)) tr (z_of_int (int_of_string now)) (arg_bytes msg))
-  | ["bridge"; lg; ports; acts] ->
-      let ps = List.map (fun x -> n_of_int (int_of_string x)) (split ',' ports) in
-      let ac = List.map (fun x -> match String.split_on_char ':' x with [a; b] -> (n_of_int (int_of_string a), n_of_int (int_of_string b)) | _ -> failwith "act") (split ',' acts) in
-      "ok " ^ hex_of_bytes (M.entry_bridge (lg = "1") ps ac)
-  | ["client"; acts] ->
-      let ac = List.map (fun x -> match String.split_on_char ':' x with [a; b] -> (n_of_int (int_of_string a), n_of_int (int_of_string b)) | _ -> failwith "act") (split ',' acts) in
-      "ok " ^ hex_of_bytes (M.entry_client ac)
-  | ["caps"; rid; onoff; waves] -> "ok " ^ hex_of_bytes (M.entry_caps (bytes_of_hex rid) (z_of_int (int_of_string onoff)) (waves_of waves))
-  | ["check_duration"; a; b; o] -> if M.check_duration (arg_bytes a) (arg_bytes b) (arg_bytes o) then "true" else "false"
-  | ["check_sign_rejects"; p] -> (match M.unhexlify (arg_bytes p) with None -> "true" | Some _ -> "false")
-  | ["check_sign"; p; o] -> if M.check_sign (arg_bytes p) (arg_bytes o) then "true" else "false"
-  | _ -> "error bad-request"
+
+let hexval c = match c with
+  | '0'..'9' -> Char.code c - 48 | 'a'..'f' -> Char.code c - 87 | 'A'..'F' -> Char.code c - 55
+  | _ -> failwith "hex"
+let bytes_of_hex (s : string) : M.n list =
+  if String.length s mod 2 <> 0 then failwith "odd hex";
+  List.init (String.length s / 2) (fun i -> n_of_int (16 * hexval s.[2*i] + hexval s.[2*i+1]))
+let hex_of_bytes (l : M.n list) : string =
+  let b = Buffer.create 256 in
+  List.iter (fun x -> Buffer.add_string b (Printf.sprintf "%02x" (int_of_n x land 255))) l; Buffer.contents b
+
+(* recursive-descent parser of one argument starting at position i; returns (arg, next position) *)
+let rec parse_arg (s : string) (i : int) : M.arg * int =
+  let n = String.length s in
+  if i < n && s.[i] = '[' then begin
+    if i + 1 < n && s.[i+1] = ']' then (M.AL [], i + 2) else
+    let rec items j acc =
+      let (a, j') = parse_arg s j in
+      if j' < n && s.[j'] = ',' then items (j' + 1) (a :: acc)
+      else if j' < n && s.[j'] = ']' then (M.AL (List.rev (a :: acc)), j' + 1)
+      else failwith "list" in
+    items (i + 1) []
+  end else begin
+    let j = ref i in
+    while !j < n && s.[!j] <> ',' && s.[!j] <> ']' do incr j done;
+    let tok = String.sub s i (!j - i) in
+    if tok = "-" then (M.AB [], !j)
+    else if tok <> "" && tok.[0] = '#' then (M.AZ (z_of_int (int_of_string (String.sub tok 1 (String.length tok - 1)))), !j)
+    else (M.AB (bytes_of_hex tok), !j)
+  end
+
+let handle line =
+  match List.filter (fun s -> s <> "") (String.split_on_char ' ' line) with
+  | [] -> "error empty"
+  | fn :: args ->
+    (try
+      let args = List.map (fun a -> let (v, j) = parse_arg a 0 in if j <> String.length a then failwith "trailing" else v) args in
+      let name = List.init (String.length fn) (fun i -> n_of_int (Char.code fn.[i])) in
+      (match M.dispatch name args with
+       | Some out -> "ok " ^ hex_of_bytes out
+       | None -> "error bad-request")
+    with Failure m -> "error parse " ^ m | Not_found -> "error parse" | Invalid_argument m -> "error parse " ^ m)
+
 let () =
-  try while true do
-    let line = input_line stdin in
-    let parts = List.filter (fun s -> s <> "") (String.split_on_char ' ' line) in
-    print_endline (dispatch parts)
-  done with End_of_file -> ()
+  try while true do print_endline (handle (input_line stdin)) done with End_of_file -> ()
